@@ -6,6 +6,8 @@
 #include "wencry_verif_hooks.h"
 #include <atomic>
 #include <sched.h>
+#include <signal.h>
+#include <sys/wait.h>
 
 extern "C" {
 int __tsan_get_report_data(void *report, const char **description, int *count, int *stack_count, int *mop_count, int *loc_count,
@@ -80,6 +82,7 @@ int main(int argc, char **argv) {
   const size_t c = VH_CHUNK;
   long long count = cx.args.n("count", 300);
   static const int Ts[] = {2, 4, 8, 3, 1, 16};
+  long tot_in = 0, tot_out = 0, tot_other = 0, tot_events = 0;
   for (long long k = 0; k < count; k++) {
     if (!cx.take()) continue;
     vh::Rng r = cx.case_rng();
@@ -100,15 +103,38 @@ int main(int argc, char **argv) {
     g_delay_mode = (int)r.below(3);
     std::string desc = ops::params_json(n, ep, pseed);
     cx.begin(desc);
+    // one forked child per execution: the driver never runs product code, so nothing one execution leaves behind
+    // (static state, recycled heap) can reach the next - history dependence is C15's business, not C03/C04/C14's
+    int pfd[2];
+    if (pipe(pfd)) { perror("pipe"); return 2; }
+    fflush(nullptr);
+    pid_t pid = fork();
+    if (pid < 0) { perror("fork"); return 2; }
+    if (pid > 0) {
+      close(pfd[1]);
+      long cnt[5] = {0, 0, 0, 0, 0};
+      ssize_t got = read(pfd[0], cnt, sizeof cnt);
+      close(pfd[0]);
+      int st = 0;
+      waitpid(pid, &st, 0);
+      if (got == (ssize_t)sizeof cnt) {
+        cx.rep.count("executions", cnt[0]);
+        tot_in += cnt[1]; tot_out += cnt[2]; tot_other += cnt[3]; tot_events += cnt[4];
+        cx.rep.dist("class", vh::tuple_hash({ep.T, ep.cmode, (long long)n, g_delay_mode.load()}));
+        if (cx.idx % 53 == 0) cx.rep.sample(desc);
+        continue;
+      }
+      // the child died: die the same way so that the runner sees the crash with this case in the progress file
+      if (WIFSIGNALED(st)) { signal(WTERMSIG(st), SIG_DFL); raise(WTERMSIG(st)); }
+      abort();
+    }
+    close(pfd[0]);
     int before = g_nreps.load();
     ops::Result e = ops::encrypt(P, ep);
-    cx.rep.count("executions");
     bytes want = ref::wenc_reference(P, ep.key, ep.cmode, ep.hmode, ep.seed.data(), ep.seed.size(), ep.T, c);
     if (!e.ret || e.out != want) cx.rep.violation("C03|real-threads|enc-output-differs", "encryption on real threads with injected delays differs from the reference", desc);
     ops::Result d = ops::decrypt(want, ep.key, ep.T);
-    cx.rep.count("executions");
     if (!d.ret || d.out != P) cx.rep.violation("C03|real-threads|dec-output-differs", "decryption on real threads with injected delays differs from the plaintext", desc);
-    cx.rep.dist("class", vh::tuple_hash({ep.T, ep.cmode, (long long)n, g_delay_mode.load()}));
     int after = g_nreps.load();
     for (int q = before; q < after && q < 256; q++) {
       const Rep &rp = g_reps[q];
@@ -122,12 +148,16 @@ int main(int argc, char **argv) {
         cx.rep.violation("TSAN-OUT-OF-SCOPE|" + std::string(rp.type) + "|pcs=" + std::to_string(std::min(rp.pc[0], rp.pc[1])) + "," + std::to_string(std::max(rp.pc[0], rp.pc[1])),
                          "ThreadSanitizer report outside the chunk buffers (logged, not a C14 verdict)", j.done());
     }
-    if (cx.idx % 53 == 0) cx.rep.sample(desc);
+    {
+      long cnt[5] = {2, g_inscope.load(), g_outscope.load(), g_other.load(), g_events.load()};
+      (void)!write(pfd[1], cnt, sizeof cnt);
+      _exit(0);
+    }
   }
-  cx.rep.count("tsan_reports_in_scope", g_inscope.load());
-  cx.rep.count("tsan_reports_out_of_scope", g_outscope.load());
-  cx.rep.count("tsan_reports_other_types", g_other.load());
-  cx.rep.count("hook_events_with_delay_injection", g_events.load());
+  cx.rep.count("tsan_reports_in_scope", tot_in);
+  cx.rep.count("tsan_reports_out_of_scope", tot_out);
+  cx.rep.count("tsan_reports_other_types", tot_other);
+  cx.rep.count("hook_events_with_delay_injection", tot_events);
   cx.rep.finish();
   return 0;
 }
